@@ -92,6 +92,29 @@ class NsModel:
         # name -> {'id': mailbox id or None, 'uidvalidity':..., 'tokens': []}
         self.boxes: dict[str, dict] = {'INBOX': self._new()}
         self.subscribed: set[str] = set()
+        # superiors that CREATE/RENAME may have created as real mailboxes
+        # (RFC 3501 6.3.3: the server SHOULD create them)
+        self.implicit: set[str] = set()
+        self.backend = 'dict'
+
+    def note_created(self, name: str) -> None:
+        parts = name.split('/')
+        for i in range(1, len(parts)):
+            anc = '/'.join(parts[:i])
+            if anc not in self.boxes:
+                self.implicit.add(anc)
+
+    def may_refuse_create(self, name: str) -> bool:
+        """New names a backend may legitimately refuse."""
+        parts = name.split('/')
+        for i in range(1, len(parts)):
+            if '/'.join(parts[:i]) not in self.boxes:
+                return True         # a superior does not exist
+        if self.backend == 'maildir':
+            # directory-backed names: '.' is the Maildir++ separator, CR/LF
+            # cannot be kept in the subscriptions file
+            return any('.' in p or '\r' in p or '\n' in p for p in parts)
+        return False
 
     @staticmethod
     def _new() -> dict:
@@ -175,7 +198,7 @@ def check_listing(ctx, model: NsModel, cmd, what: str, pattern: str,
             a for n in model.subscribed for a in _ancestors_of(n)}
     else:
         must = existing
-        may = set()
+        may = set(model.implicit)
     want = {n for n in must if matches(pattern, n)}
     selectable = {n for n, attrs in got.items() if b'\\noselect' not in attrs}
     noselect = set(got) - selectable
@@ -192,6 +215,10 @@ def check_listing(ctx, model: NsModel, cmd, what: str, pattern: str,
                     'do not exist or do not match (existing: %s)'
                     % (what, pattern, sorted(extra), sorted(existing)))
         return
+    if not lsub:
+        for n in selectable & model.implicit:
+            model.boxes[n] = model._new()       # it does exist, then
+            model.implicit.discard(n)
     for n in noselect:
         ok_name = (n in anc or n in may) and matches(pattern, n)
         if n in existing and not lsub:
@@ -213,6 +240,7 @@ def _ancestors_of(name: str):
 def run_ns(case: dict, trace: bool = False) -> dict:
     ctx = Ctx(case, trace=trace)
     model = NsModel()
+    model.backend = case['config'].get('backend', 'dict')
     effective = 0
     try:
         ctx.run_step({'actions': [{'sess': 0, 'kind': 'connect'}]}, -1)
@@ -277,12 +305,19 @@ def run_ns(case: dict, trace: bool = False) -> dict:
                         ctx.stat('refused_with_bad')
                 elif cond == 'OK':
                     model.boxes[name] = model._new()
+                    model.implicit.discard(name)
+                    model.note_created(name)
                     effective += 1
-                elif cond == 'NO':
+                elif cond == 'NO' and name in model.implicit:
+                    ctx.stat('create_of_implicit_name_refused')
+                elif cond == 'NO' and not model.may_refuse_create(name):
                     ctx.violate('C11', 'create-refused', '%s: new name '
                                 'answered NO %r' % (what, cmd.result.text))
             elif kind == 'delete':
-                if name == 'INBOX' or name not in model.boxes:
+                if name in model.implicit:
+                    if cond == 'OK':
+                        model.implicit.discard(name)
+                elif name == 'INBOX' or name not in model.boxes:
                     if cond == 'OK':
                         ctx.violate('C11', 'delete-missing', '%s: answered '
                                     'OK' % what)
@@ -322,6 +357,8 @@ def run_ns(case: dict, trace: bool = False) -> dict:
                             moved[n] = to + n[len(name):]
                     for old, new in moved.items():
                         model.boxes[new] = model.boxes.pop(old)
+                        model.implicit.discard(new)
+                        model.note_created(new)
                     if name == 'INBOX':
                         model.boxes['INBOX'] = model._new()
                     for old, new in moved.items():
@@ -353,9 +390,12 @@ def run_ns(case: dict, trace: bool = False) -> dict:
                                         'not empty afterwards: %r'
                                         % (what, left))
                 elif cond == 'NO' and to not in model.ancestors() \
-                        and '/' not in to:
+                        and to not in model.implicit \
+                        and not model.may_refuse_create(to):
                     ctx.violate('C11', 'rename-refused', '%s -> %r: answered '
-                                'NO %r' % (what, to, cmd.result.text))
+                                'NO %r' % (what, to, cmd.result.text),
+                                sig={'source': 'INBOX' if name == 'INBOX'
+                                     else 'other'})
             elif kind == 'subscribe':
                 if cond == 'OK':
                     model.subscribed.add(name)
@@ -428,6 +468,7 @@ def run_ns(case: dict, trace: bool = False) -> dict:
 
 class C11(Profile):
     id = 'C11'
+    BACKENDS = ('dict', 'dict', 'dict', 'maildir')
     level = 'exploration'
     quick_budget_s = 40.0
     thorough_budget_s = 400.0
@@ -453,7 +494,9 @@ class C11(Profile):
     components = C01.components
 
     def gen(self, rng, tier):
-        return gen_ns_case(rng, tier)
+        from .common import backends, finish_cfg
+        return finish_cfg(gen_ns_case(
+            rng, tier, backends=backends(self.BACKENDS)), rng)
 
     def run(self, case, trace=False):
         return run_ns(case, trace)
